@@ -424,7 +424,14 @@ class SimQueue(object):
         if self.maxsize > 0 and len(self.items) >= self.maxsize:
             if not block:
                 raise self.Full
-            self.sched.wait_until(lambda: len(self.items) < self.maxsize, 'q-put-wait', self.qid)
+            if timeout is not None:
+                deadline = self.sched.clock.now + timeout
+                while len(self.items) >= self.maxsize:
+                    if self.sched.clock.now >= deadline:
+                        raise self.Full
+                    self.sched.sleep(min(0.05, max(deadline - self.sched.clock.now, 1e-6)))
+            else:
+                self.sched.wait_until(lambda: len(self.items) < self.maxsize, 'q-put-wait', self.qid)
         self.items.append(item)
         self.unfinished += 1
 
